@@ -1,5 +1,25 @@
 /-
   C10 - self-test follows the datasheet procedure, judges correctly, restores the config.
+
+  The self test is a fixed list of 21 bus actions computed from the configuration saved
+  before it (`selfTestActs`, mirroring lib.rs / config.rs).  For EVERY coherent prior
+  configuration and EVERY pair of sensor responses:
+  `C10_setup` / `C10_state_at_excitation`  when the first non-zero value is written to
+        SELF_TEST (0x7D) the device has INT_CONFIG0 = INT_CONFIG1 = 0 (all interrupts off),
+        the auto-wake-up interrupt bit and the three FIFO axis bits clear, power mode normal
+        and ACC_CONFIG1 = 0x78 (4g, OSR3, 100 Hz);
+  `C10_order`   SELF_TEST receives exactly 0x07 (positive, all axes), 0x0F (negative), 0x00
+        (off), in this order; each of the two data reads - one 6-byte burst at 0x04 each,
+        and there are no other reads - happens while an excitation is applied and after at
+        least 50 ms of DelayMs arguments since it was switched on;
+  `C10_verdict` Ok exactly when positive - negative exceeds 1500 / 1200 / 250 on x / y / z
+        (12-bit operands: no i16 overflow), otherwise SelfTestFailedError, nothing else;
+  `C10_restore` in both cases every device register afterwards equals its value before, and
+        so does the recorded configuration;
+  `C10_abstract` all of it as `P.C10`, the predicate `judge` evaluates on the crate;
+  `C10_i2c` / `C10_spi`  the run over either transport is that abstract run (refinement,
+        Thm/C14), journal included.
+  Partial: "50 ms" is the sum of the arguments passed to DelayMs, not elapsed time.
 -/
 import Bma400.Thm.C16
 import Bma400.Thm.C03
